@@ -103,6 +103,7 @@ type Path struct {
 	obligs      []*Oblig
 	keptUnknown int
 	inInit      bool
+	cmdOutput   *Term
 	writes      int
 	onceDone    map[*Value]bool
 	pools       map[*Value][]Value
